@@ -170,6 +170,23 @@ class Replayer:
                     file = (fmt, p)
                 elif name == "loadmodel":
                     fmt = op[1]
+                    if getattr(self, "cross", False) and kind == "model":
+                        # the artifact is the ONLY channel between the dumping and the loading side: reload it in a fresh
+                        # interpreter first (nothing of the original object's process state can leak through)
+                        import hashlib
+                        import subprocess
+                        pr = subprocess.run([sys.executable, os.path.join(os.path.dirname(os.path.abspath(__file__)), "c14_child.py"),
+                                             file[1], fmt, str(aux), str(self.seed)], capture_output=True, text=True, timeout=600,
+                                            env=dict(os.environ, OMP_NUM_THREADS="1"))
+                        out = (pr.stdout or "").strip().splitlines()
+                        last = out[-1] if out else ""
+                        self.ncross = getattr(self, "ncross", 0) + 1
+                        if pr.returncode != 0:
+                            problems.append((step, "reload in a fresh process died (return code %d)" % pr.returncode))
+                            break
+                        if last.startswith("SHA:") and last[4:] != hashlib.sha1(ref_eval).hexdigest():
+                            problems.append((step, "reload in a fresh process does not evaluate bit-identically"))
+                            break
                     obj = load_cider_model(file[1], None if fmt == "infer" else fmt)
                 else:
                     raise MachineryError("unknown op %r" % (op,))
@@ -309,9 +326,13 @@ def main():
         chosen = lists + others[:120]
     tmp = scratch_dir("c14")
     rp = Replayer(tmp, ck.seed)
+    ncross_want = 10 if ck.tier == "quick" else 60
     nload = 0
     try:
         for h in chosen:
+            # a stratified handful of whole-model behaviours also reload in a FRESH interpreter (driver-side dimension)
+            rp.cross = (h[0][1] == "model" and any(o[0] == "loadmodel" for o in h) and getattr(rp, "ncross", 0) < ncross_want
+                        and spec_projection(h, reg, writes)[-1] != "error")
             proj, problems = rp.run(h)
             exp = spec_projection(h, reg, writes)
             nontrivial = any(o[0] in ("load", "loadmodel") for o in h)
@@ -334,6 +355,7 @@ def main():
     ck.traces = len(chosen)
     ck.extra["behaviours_enumerated_by_tlc"] = len(hists)
     ck.extra["loads_replayed"] = nload
+    ck.extra["loads_in_a_fresh_interpreter"] = getattr(rp, "ncross", 0)
     # binding self-test: a wrong projection must be noticed
     h0 = next((h for h in chosen if h[0][1] == "list" and any(o[0] == "load" for o in h)), None)
     if h0 is None:
